@@ -52,7 +52,7 @@ def confirm(name, wt, out, flags):
             "confirmed": {"repository_tests_pass_with_change": tests_pass, "demo_rc_with_change": rc1,
                           "demo_rc_without_change": rc0,
                           "how": "tools/seed_eval.py confirm: cmake+ctest in the scratch worktree with the change applied; "
-                                 "demo compiled and run with the change and after git stash"},
+                                 "demo compiled and run with the change and after reverting it (git checkout -- src, then git apply to restore)"},
             "needs": "see README.txt", "checks": {}}
     mp = os.path.join(dest, "meta.json")
     if os.path.exists(mp):
